@@ -33,6 +33,8 @@ def gen_case(seed, tier):
     n_ops = rng.choice((20, 40, 80, 150)) if tier == 'quick' else rng.choice((20, 60, 150, 300))
     profile = rng.choice(('mixed', 'mixed', 'expiry', 'nottl'))
     prog = seqcache.gen_prog(rng, n_ops, profile, settings['disk_min_file_size'])
+    if settings['cull_limit'] == 0:
+        prog = seqcache.add_blocks(rng, prog)      # transact() blocks in which time passes (no lazy culling in these runs)
     return {'seed': seed, 'cfg': {'settings': settings, 'profile': profile}, 'prog': prog}
 
 
